@@ -252,30 +252,39 @@ Proof.
   pose proof (tok_str_nonempty t Ht). specialize (IH Hts). lia.
 Qed.
 
-(** ** C08: the model parser inverts the canonical rendering *)
-Theorem parse_string_render : forall e, wf e = true -> forallb tok_okb (rend 0 e) = true ->
-  parse_string false (render e) = Some e.
+(** ** C08: the model parser inverts the canonical rendering, abbreviated or not *)
+Theorem parse_string_render : forall ab e, wf e = true -> forallb tok_okb (rend ab 0 e) = true ->
+  parse_string false (render ab e) = Some e.
 Proof.
-  intros e Hw Hl. unfold parse_string, render.
+  intros ab e Hw Hl. unfold parse_string, render.
   rewrite lex_unlex; [|exact Hl|pose proof (unlex_length _ Hl); lia].
   now rewrite parse_rend.
 Qed.
 
+(** abbreviated forms equal their expansions, as strings *)
+Corollary abbreviated_text_is_expansion e : wf e = true ->
+  forallb tok_okb (rend true 0 e) = true -> forallb tok_okb (rend false 0 e) = true ->
+  parse_string false (render true e) = parse_string false (render false e).
+Proof. intros. now rewrite !parse_string_render. Qed.
+
 Example parse_string_render_instance :
   let n1 := ENum (lit "1.5") in
-  let a := EPath false [SAxis Child (NTQName (lit "p") (lit "a-b")) [ECmp CEq (ECall (None, lit "position") []) n1]] in
+  let a := EPath false [SAxis Child (NTQName (lit "p") (lit "a-b")) [ECmp CEq (ECall (None, lit "position") []) n1];
+                        SAxis DescendantOrSelf NTNode []; SAxis Attribute (NTName (lit "div")) []; SAxis Parent NTNode []] in
   let e := EOr (EAnd (ECmp CLt (EArith ASub (EArith AMul (ENeg a) n1) (ELit (lit "it's"))) n1)
                      (EUnion a (EFilter (EVar (Some (lit "q"), lit "v")) [n1] [SAxis Parent NTNode []])))
                (EPath true []) in
-  wf e = true /\ forallb tok_okb (rend 0 e) = true /\ parse_string false (render e) = Some e.
-Proof. repeat split; reflexivity. Qed.
+  wf e = true /\ forallb tok_okb (rend true 0 e) = true /\ forallb tok_okb (rend false 0 e) = true /\
+  parse_string false (render true e) = Some e /\ parse_string false (render false e) = Some e /\
+  render true e <> render false e.
+Proof. repeat split; try reflexivity. vm_compute. discriminate. Qed.
 
 (** what the correspondence check asks for: the canonical text of an AST, when it has one *)
-Definition canonical_text (e : expr) : option str :=
-  if wf e && forallb tok_okb (rend 0 e) then Some (render e) else None.
+Definition canonical_text (ab : bool) (e : expr) : option str :=
+  if wf e && forallb tok_okb (rend ab 0 e) then Some (render ab e) else None.
 
-Theorem canonical_text_parses e s : canonical_text e = Some s -> parse_string false s = Some e.
+Theorem canonical_text_parses ab e s : canonical_text ab e = Some s -> parse_string false s = Some e.
 Proof.
-  unfold canonical_text. destruct (wf e && forallb tok_okb (rend 0 e)) eqn:H; [|discriminate].
+  unfold canonical_text. destruct (wf e && forallb tok_okb (rend ab 0 e)) eqn:H; [|discriminate].
   intros [= <-]. apply andb_prop in H. destruct H. now apply parse_string_render.
 Qed.
